@@ -1,8 +1,10 @@
 package main
 
 // Fixture: a valid chain built with the REAL tm2 types and the REAL BlockExecutor.ApplyBlock:
-// 4 validators (deterministic ed25519 keys), two validator-set changes (so that at heights 3 and 4
-// LastValidators, Validators and NextValidators are three different sets with non-uniform powers),
+// 4 validators (deterministic ed25519 keys), two validator-set changes: powers {10,10,10,10} ->
+// {30,10,10,10} (in force from height 3; total 60, so that a tally of exactly 2/3 = 40 is reachable at
+// height 4) -> {30,5,10,10} (from height 4); at height 3 LastValidators, Validators and NextValidators
+// are three different sets,
 // non-trivial AppHash / LastResultsHash per height, deterministic vote timestamps.
 
 import (
@@ -78,7 +80,7 @@ func (a *fixApp) EndBlock(req abci.RequestEndBlock) abci.ResponseEndBlock {
 	var ups []abci.ValidatorUpdate
 	switch req.Height {
 	case 1: // takes effect as Validators at height 3
-		ups = append(ups, abci.ValidatorUpdate{Address: a.keys[0].addr, PubKey: a.keys[0].pub, Power: 20})
+		ups = append(ups, abci.ValidatorUpdate{Address: a.keys[0].addr, PubKey: a.keys[0].pub, Power: 30})
 	case 2: // takes effect as Validators at height 4
 		ups = append(ups, abci.ValidatorUpdate{Address: a.keys[1].addr, PubKey: a.keys[1].pub, Power: 5})
 	}
